@@ -344,6 +344,13 @@ UNITS = [
     U('model_string_ctor_cstr', 'contracts/model_self.c', 'h_model_string_ctor_cstr', ['vf_string_ctor_cstr/contract_vf_string_ctor_cstr'],
       ['C02', 'C16', 'C13', 'C18'], loops=True, model_loops=True, unwind=4, timeout=900, level='PB', object_bits=12,
       bound='C strings of at most 4096 characters'),
+    U('AST_static_storage', 'extract/lower.py', '-', [], ['C18'], mode='ast',
+      assumes=['static and namespace-scope variable definitions as clang reports them for the 12 translation units']),
+    U('B_Points_write', 'contracts/bounded_data_write.c', 'h_B_Points_write', [], ['C01', 'C03', 'C12', 'C14', 'C13'], mode='bmc',
+      unwind=9, unwindset={'vf_stream_write.0': 34}, timeout=900, level='B', object_bits=12,
+      bound='at most 2 points, start offset <= 8; loop bounds sized for one write per float, per point or per frame',
+      props={'memsafe': ['C13'], 'ub': ['C13']},
+      assumes=['plain symbolic execution of the real Points::write / Point::write over the stream model']),
     U('Parameters_write', WR, 'h_Parameters_write', ['Parameters__write/contract_Parameters__write'],
       ['C01', 'C03', 'C13', 'C14', 'C10'], replace=['Group__write/contract_abs_Group__write'], unwind=5, loops=True, timeout=900,
       pre_unwind={'vf_stream_write.0': 5, 'Parameters__write.0': 3},
